@@ -27,8 +27,11 @@ def main():
                 p = sh("./check %s --tier quick" % c, cwd=ROOT, env=env)
                 out = p.stdout.decode()
                 viol = [l for l in out.splitlines() if l.startswith("VIOLATION")]
-                row[c] = dict(detected=bool(viol) or p.returncode != 0, lines=viol[:2], seconds=round(time.time() - t))
-                print(sid, c, row[c]["detected"], row[c]["seconds"], flush=True)
+                crashed = (p.returncode != 0 and not viol) or "Traceback (most recent call last)" in out
+                row[c] = dict(detected=bool(viol) and not crashed, lines=viol[:2], seconds=round(time.time() - t))
+                if crashed:
+                    row[c]["crashed"] = out[-400:]
+                print(sid, c, "CRASHED" if crashed else row[c]["detected"], row[c]["seconds"], flush=True)
         finally:
             sh("git -C /repo checkout -- .")
         matrix[sid] = row
